@@ -65,12 +65,12 @@ def check(run, replay=None):
                        'the shared model), raw random identifiers; plus nodegen.random_history and randomised D-14 scenarios.  Oracle: no sanitizer/fence fault, every delivered message <= 223 '
                        'bytes, <= 20 deliveries per ParseMessages.  Model (incl. its out-of-bounds flag) and C++ compared on every event and the state dump, both scheduler builds; '
                        'family gf-*: the complete PGN 126208 traffic of the C09 generator (requests, commands, read/write, UCS-2 strings ending around the 70-byte field buffer) against the model '
-                       'with the library handlers (gf_lib) under the same oracle; non-trivial = history with received frames')
+                       'with the library handlers (gf_lib) under the same oracle; family devlist: the device-list histories of the C18 generator under the memory oracle; non-trivial = history with received frames')
     # the 64-bit harness handles all cases of one call in one process and never frees a node (tNMEA2000 has no destructor), so a call
     # gets a bounded number of cases: beyond ~10^4 histories the sanitizer's allocator gives up, which would look like a crash
     CHUNK = 2500
     chunks = [cases[k:k + CHUNK] for k in range(0, len(cases), CHUNK)]
-    for fs in (() if (replay and any(l.startswith('# family: gf-') for l in open(replay))) else ('w64', 'w32')):
+    for fs in (() if (replay and any(l.startswith(('# family: gf-', '# family: devlist')) for l in open(replay))) else ('w64', 'w32')):
         for k, chunk in enumerate(chunks):
             fam = 'safe-' + fs if len(chunks) == 1 else 'safe-%s-c%02d' % (fs, k)
             vlib.correspond(run, fam, 'h_node', fs, 'NODE', chunk, oracle, nontrivial, model_args=[fs])
@@ -82,3 +82,10 @@ def check(run, replay=None):
         gcases = cases if gf_replay else p_C09.gen(run.seed, run.tier)
         for fs in ('w64', 'w32'):
             vlib.correspond(run, 'gf-' + fs, 'h_node', fs, 'NODEGF', gcases, oracle, nontrivial, model_args=[fs])
+    # the optional device list (tN2kDeviceList): the message histories of the C18 generator under this property's memory oracle (any
+    # sanitizer fault = violation), against the device-list model whose heap discipline is the subject of C18_heap_safe (re-exported here)
+    dl_replay = bool(replay) and any(l.startswith('# family: devlist') for l in open(replay))
+    if dl_replay or not replay:
+        import p_C18
+        dcases = cases if dl_replay else p_C18.gen(run.seed, run.tier)
+        vlib.correspond(run, 'devlist', 'h_devlist', 'w64', 'C18', dcases, lambda c, res: ('memory:' + res) if res.startswith('crash') else None, None)
